@@ -9,15 +9,15 @@ KINDS = {
     "C01": {"overlap", "inside", "align", "size", "bookkeeping", "freelist", "sizeclass", "assert"},
     "C02": {"content", "footprint", "realloc", "nullop", "churn"},
     "C03": {"unmap", "pages", "poison", "poison-access"},
-    "C04": {"mapfail"},
+    "C04": {"mapfail", "lock-balance"},
 }
 COMMON = {"crash"}          # a crash of the real code that is not an access to poisoned memory counts for every property
-OTHER = {"lock-at-callback", "deadlock"}     # C05's
+OTHER = {"lock-at-callback", "deadlock"}     # C05's ("lock-balance": unlock of an unlocked mutex / a mutex held at return -> C04)
 
-RULE = ("seeded op scripts (allocate/free/deallocate/realloc/get_size/user writes/digests/structure dumps on slots) over 12 "
+RULE = ("seeded op scripts (allocate/free/deallocate/realloc/get_size/user writes/digests/structure dumps on slots) over 14 "
         "template configurations (page 0x1000/0x4000, slab/sb 2^16, 2^18, 0x1C000/0x20000, 4/10/13 buckets, aligned/unaligned map, "
         "with/without poison hooks) and 6 generator modes (mixed sizes at every class boundary, fill/drain of whole slabs, realloc "
-        "class pairs, map-failure injection with retry, large path with region recycling); non-trivial = distinct script in which "
+        "class pairs, map-failure injection with retry, large path with region recycling; churn ops = tight allocate/free loops, 2^32 pairs in the thorough tier of C01/C02); non-trivial = distinct script in which "
         "the pool mapped at least two regions or moved a block by realloc or survived a failed map")
 TRUSTED = ["extraction: ExtrOcamlBasic only; OCaml 4.13.1; comp/slab/driver.ml (replays the harness's deterministic arena policy)",
            "correspondence harness comp/slab/harness.cpp (g++ -fsanitize=address,undefined, -fno-access-control; ASan manual poisoning)",
@@ -25,10 +25,9 @@ TRUSTED = ["extraction: ExtrOcamlBasic only; OCaml 4.13.1; comp/slab/driver.ml (
            "used-page accounting, byte-granular poison shadow, MapFail fingerprint (all in harness.cpp, independent of the model)",
            "modelled, not verified: the partial-slab rbtree as a sorted list (C06 is its refinement theorem), free-list links as lists, "
            "memcpy as transfer of the owner's write log"]
-ASSUMPTIONS = ["cfg_ok: page/sb powers of two, page | slabsize <= sb, at least two objects of the largest class per slab, <= 56 buckets",
+ASSUMPTIONS = ["cfg_ok: page/sb powers of two, page | slabsize <= sb, slabsize <= 2^34, at least two objects of the largest class per slab, <= 56 buckets",
                "policy_ok: map answers non-zero, non-wrapping, disjoint from outstanding regions, sb-aligned for the aligned signature",
                "api_ok: free/deallocate/realloc/get_size only of live pointers (or null), request sizes < 2^62, deallocate size <= block size",
-               "history shorter than 2^32 operations (slab_frame::num_reserved is an unsigned int that is never decremented)",
                "single-threaded (C05 is the concurrent statement)"]
 
 _built = {}
@@ -87,6 +86,12 @@ def make_cases(c, focus, cfgs):
         q = adm[i % len(adm)] if i < 2 * len(adm) else c.rng.choice(adm)
         mode, lines = gen.gen_case(c.rng, q, focus)
         cases.append(("g%d-%s-%s" % (i, q.name, mode), lines))
+    # a block >= 4 GiB needs a policy that only hands out address space (no poison hooks): C01 and C03
+    if focus in ("C01", "C03"):
+        plain = [q for q in adm if not q.poison]
+        for i in range(8 if c.tier == "quick" else 60):
+            mode, lines = gen.gen_case(c.rng, plain[i % len(plain)], focus, mode="huge")
+            cases.append(("h%d-%s-%s" % (i, plain[i % len(plain)].name, mode), lines))
     if c.tier == "thorough":
         if focus in ("C01", "C02"):
             cases += gen.long_corpus(cfgs)
@@ -109,7 +114,7 @@ def run(c, focus="C01"):
     for cid, ls in cases:
         c.count("slab_ops", len(ls) - 1)
         c.count("slab_cfg_" + (ls[0].split()[1] if ls and ls[0].startswith("cfg ") else "?"))
-        m = re.match(r"g\d+-.*-(\w+)$", cid)
+        m = re.match(r"[gh]\d+-.*-(\w+)$", cid)
         c.count("slab_mode_" + (m.group(1) if m else "corpus"))
         for l in ls[1:]:
             t = l.split()
@@ -123,7 +128,7 @@ def run(c, focus="C01"):
                 c.count("slab_op_" + t[0])
     long_cases = [x for x in cases if is_long(x[1])]
     short_cases = [x for x in cases if not is_long(x[1])]
-    impl = vlib.run_cases(har, short_cases, timeout=900)
+    impl = vlib.run_cases(har, short_cases, timeout=600)       # <= 600: the harness's 30 s per-case CPU watchdog is armed
     if long_cases:
         fast = build_fast(c)
         if fast:
